@@ -196,10 +196,16 @@ func SetSources(dir string, v *Variant) error {
 			os.RemoveAll(filepath.Join(dir, n))
 		}
 	}
-	// Files are (re)created in the simulator's order: remove first so that the
-	// directory listing order is decided here and not by earlier operations.
+	// Like a user editing sources: only files whose content differs are
+	// written (unchanged files keep their modification time - an "up to date"
+	// shortcut in the generator must not be fooled by untouched grammar files).
+	// In a fresh directory everything is created, in the simulator's order,
+	// which decides the directory listing order.
 	for _, n := range CreationOrder(v.Files, dir) {
 		p := filepath.Join(dir, n)
+		if old, err := os.ReadFile(p); err == nil && string(old) == v.Files[n] {
+			continue
+		}
 		os.Remove(p)
 		if err := os.WriteFile(p, []byte(v.Files[n]), 0o644); err != nil {
 			return err
